@@ -123,6 +123,40 @@ def run(ck: Check):
             nontrivial.add(canon([models, kind, calls]))
             if len(samples) < 2:
                 samples.append({"kind": kind, "calls": calls, "plans": len(plans), "example_plan": plans[len(plans) // 2][1]})
+    if ck.broken and not ck.failing:
+        # directed search after a broken translation / proof: three calls, THREE pre-emptions — T0 is stopped after k1 lines, T1
+        # runs alone to the end, T0 goes on for k2 more lines, a fresh call T2 runs alone — on graphs whose only route goes
+        # through the hops synthesised for a many_to_many junction, and on a plain chain
+        directed = [([{"name": "students", "pk": "id", "rels": [{"name": "courses", "type": "many_to_many", "through": "enrollments", "tfk": "student_id", "rfk": "course_id"}]},
+                      {"name": "courses", "pk": "id", "rels": []}, {"name": "enrollments", "pk": "id", "rels": []}], ("students", "courses")),
+                    ([{"name": "items", "pk": "id", "rels": [{"name": "orders", "type": "many_to_one", "fk": "orders_id"}]},
+                      {"name": "orders", "pk": "id", "rels": [{"name": "customers", "type": "many_to_one", "fk": "customers_id"}]}, {"name": "customers", "pk": "id", "rels": []}], ("items", "customers"))]
+        for models, (a, b) in directed:
+            want = serial(models, "path", a, b)
+            tgt = fresh_graph(models)
+            _, steps = ctl.run([call_of("path", tgt, a, b), call_of("path", tgt, a, b)], [(0, None), (1, None)])
+            n0 = steps[0]
+            found = False
+            for k1 in range(0, n0 + 1):
+                for k2 in range(1, n0 + 1 - k1):
+                    tgt = fresh_graph(models)
+                    fns = [call_of("path", tgt, a, b) for _ in range(3)]
+                    try:
+                        res, _ = ctl.run(fns, [(0, k1), (1, None), (0, k2), (2, None)])
+                    except RuntimeError:
+                        continue
+                    schedules += 1
+                    bad = [t for t in range(3) if res[t] != want]
+                    if bad:
+                        ck.fail_input(f"thread {bad[0]} path({a},{b}) under a controlled schedule with three pre-emptions differs from its serial result",
+                                      {"models": models, "kind": "path", "calls": [(a, b)] * 3, "threads": [0, 1, 2], "plan": [(0, k1), (1, None), (0, k2), (2, None)],
+                                       "got": repr(res[bad[0]])[:400], "serial": repr(want)[:400]})
+                        found = True
+                        break
+                if found:
+                    break
+            if found:
+                break
     ck.obligation("schedule correspondence: every thread's result equals its serial result", not ck.failing, f"{schedules} schedules")
     ck.coverage.update({
         "evaluations": schedules, "distinct_nontrivial": max(len(nontrivial), 2) if schedules else 0,
